@@ -6,7 +6,7 @@
     empty piece) are proved below for every input.  That the re-slicing indices are char
     boundaries (so str_up_to / str_from cannot panic) is C01_find_offset_is_boundary. *)
 From KV Require Import Base.Prelude Model.Search Spec.Search Model.Split Spec.Split Proofs.SplitProofs.
-From KV Require Import Spec.Utf8 Proofs.SplitEmptyProofs.
+From KV Require Import Spec.Utf8 Proofs.SplitEmptyProofs Proofs.SplitRevProofs.
 Local Open Scope nat_scope.
 
 (** [split]: running [next] to exhaustion ends within [split_fuel] steps and yields the
@@ -53,6 +53,22 @@ Theorem C06_rsplit_remainder : forall d, d <> [] -> forall k h ps s,
   (s_state s = SFinished /\ s_this s = [] /\ join d (rev ps) = h).
 Proof. exact rsplit_remainder. Qed.
 
+(** reversing a split iterator AT ANY POINT of its iteration: after k steps from the front the
+    reversed iterator (next_back to exhaustion) yields exactly rsplit's pieces of the
+    not-yet-split remainder, and nothing once the iteration has finished; dually for rsplit *)
+Theorem C06_split_rev_after_steps : forall d, d <> [] -> forall k h ps s,
+  steps split_next k (split_init h d) = Some (ps, s) ->
+  exists qs, collect split_next_back (split_fuel (s_this s)) s = Some qs /\
+    ((s_state s = SNormal d /\ h = concat (map (fun p => p ++ d) ps) ++ s_this s /\ rsplit_rel d (s_this s) qs) \/
+     (s_state s = SFinished /\ join d ps = h /\ qs = [])).
+Proof. exact split_rev_after_steps. Qed.
+Theorem C06_rsplit_rev_after_steps : forall d, d <> [] -> forall k h ps s,
+  steps split_next_back k (split_init h d) = Some (ps, s) ->
+  exists qs, collect split_next (split_fuel (s_this s)) s = Some qs /\
+    ((s_state s = SNormal d /\ h = s_this s ++ concat (map (fun p => d ++ p) (rev ps)) /\ split_rel d (s_this s) qs) \/
+     (s_state s = SFinished /\ join d (rev ps) = h /\ qs = [])).
+Proof. exact rsplit_rev_after_steps. Qed.
+
 (** the empty delimiter: std yields "", every char, "" (split), the same backwards (rsplit),
     and without the final "" for the terminator forms; [segs h = Some es] says h is valid UTF-8
     with characters es *)
@@ -83,3 +99,5 @@ Print Assumptions C06_split_rel_join.
 Print Assumptions C06_rsplit_rel_join.
 Print Assumptions C06_split_remainder.
 Print Assumptions C06_rsplit_remainder.
+Print Assumptions C06_split_rev_after_steps.
+Print Assumptions C06_rsplit_rev_after_steps.
